@@ -70,8 +70,12 @@ def families(draw):
     # rescale some vectors (same shares, different total): the position must not depend on the total
     scaled = []
     for ws in fam:
-        k = draw(st.sampled_from([1, 1, 2, 3, 10, 7]))
-        if k != 1 and all("." not in w for w in ws):
+        k = draw(st.sampled_from([1, 1, 2, 3, 10, 7, "nano"]))
+        if k == "nano":
+            # the same shares written in the smallest expressible unit (1e-9): a position must not depend on the magnitude
+            if all("." not in w and int(w) < 10 ** 9 for w in ws):
+                ws = ["0.%09d" % int(w) for w in ws]
+        elif k != 1 and all("." not in w for w in ws):
             ws = [str(int(w) * k) for w in ws]
         elif k == 10 and all("." not in w for w in ws):
             ws = ["%d.%d" % (int(w) // 10, int(w) % 10) for w in ws]
@@ -137,6 +141,13 @@ def judge(case):
             if live is None:
                 live = sut.evaluator_mod().ExperimentEvaluator(text)
             else:
+                if vi % 2:
+                    # a deploy that goes wrong in between (a typo in the new weights: the text is refused) must not keep the
+                    # next, corrected deploy from taking effect
+                    try:
+                        live.recompile(text.replace(" weighted ", " weighted , ", 1))
+                    except Exception:
+                        pass
                 live.recompile(text)
         except Exception as e:
             viol.append("live evaluator: recompile to %r raised %s: %s" % (ws, type(e).__name__, e))
